@@ -71,7 +71,7 @@ func (x *Exec) inferredLoopSpec(fn *ssa.Function, li *loopInfo) *LoopSpec {
 	for _, c := range ls.Invs {
 		kept = append(kept, c.Text)
 	}
-	x.notes = append(x.notes, fmt.Sprintf("loop %d of inlined %s has no contract: invariant inferred from %d candidates (each proved on entry and preserved, or dropped): %s",
+	x.notes = append(x.notes, fmt.Sprintf("loop %d of %s has no invariant clause: invariant inferred from %d candidates (each proved on entry and preserved, or dropped): %s",
 		li.ordinal, hname, len(ls.Invs), strings.Join(kept, " && ")))
 	return ls
 }
